@@ -713,6 +713,17 @@ Definition normalise_paths (base ford_dir : str) (st : settings) : res settings 
   do st <- fold_left (normalise_field base) (combine field_types st) (Ok st);
   Ok (if py_truthy (sget (s "relative") st) then sset (s "project_url") (sget (s "output_dir") st) st else st).
 
+(* parse_arguments, right after normalise_paths: the output directory is never searched for sources.
+   __post_init__ appended the output_dir known when the settings were built; the command line may
+   have replaced output_dir or exclude_dir since.  Both are normalised paths here; [in] is == *)
+Definition exclude_output (st : settings) : res settings :=
+  match sget (s "exclude_dir") st with
+  | PList l =>
+    let od := sget (s "output_dir") st in
+    Ok (if existsb (py_eq od) l then st else sset (s "exclude_dir") (PList (l ++ [od])) st)
+  | _ => te (s "exclude_dir")
+  end.
+
 Definition is_ancestor_or_self (od sd : str) : bool :=
   seqb od sd || prefix (od ++ [slash]) sd || (seqb od [slash] && prefix [slash] sd).
 
@@ -770,6 +781,7 @@ Definition effective (i : input) : res (settings * list str) :=
   do r <- load_settings (i_lines i) (i_toml i) cfg;
   do st <- apply_cli (fst r) (i_cli i);
   do st <- normalise_paths (project_dir i) (i_ford i) st;
+  do st <- exclude_output st;
   do st <- finish_arguments st;
   Ok (st, cfg_warned ++ snd r).
 
